@@ -266,3 +266,69 @@ def strip_tails(w):
         r.cigar, r.seq = cig, seq
         r.truth["polya"] = False
     return w
+
+
+def add_twin_loci(w, per_chrom=3, offsets=(2, 3, 4, 6), n_reads=3, prefix="NG", skip_isoform=True, chroms=None):
+    """NAGNAG-like loci: isoforms tA / tB whose intron j (never the gene's first intron) differs by d bp at ONE boundary, plus
+    (optionally) an isoform tS skipping the exon next to that boundary.  Reads: exact copies of each isoform, reads whose junction
+    lies between the twin sites (exactly midway for even d), reads 1 bp off one twin, truncated reads, and reads that do not
+    reach the twin intron.  Everything else about the reads is error-free."""
+    from vlib.world import Gene, Transcript
+    rng = w.rng
+    made = []
+    for ci, chrom in enumerate(chroms or w.chrom_order):
+        pos = max([g.end for g in w.genes if g.chrom == chrom] + [1000]) + 2500
+        for k in range(per_chrom):
+            if pos + 9000 > w.chrom_len(chrom):
+                break
+            strand = "+-"[(k + ci) % 2]
+            ex = []
+            p = pos
+            for j in range(5):
+                L_ = rng.randint(180, 320)
+                ex.append((p, p + L_ - 1))
+                p += L_ + rng.randint(500, 900)
+            d = offsets[(k + ci) % len(offsets)]
+            side = ("left", "right")[k % 2]
+            j = rng.randint(1, 3)                 # intron j lies between exon j and exon j + 1; j >= 1: not the first intron
+            exb = list(ex)
+            if side == "left":
+                exb[j] = (ex[j][0], ex[j][1] + d)
+            else:
+                exb[j + 1] = (ex[j + 1][0] + d, ex[j + 1][1])
+            gid = "%s%d_%d" % (prefix, w.chrom_order.index(chrom) + 1, k + 1)
+            g = Gene(gid, chrom, strand)
+            g.transcripts.append(Transcript(gid + ".tA", gid, chrom, strand, ex, True, "twin"))
+            g.transcripts.append(Transcript(gid + ".tB", gid, chrom, strand, exb, True, "twin"))
+            if skip_isoform:
+                sk = j if (side == "left" and j >= 1) else j + 1
+                if 1 <= sk <= 3:
+                    exs = [e for i, e in enumerate(ex) if i != sk]
+                    g.transcripts.append(Transcript(gid + ".tS", gid, chrom, strand, exs, True, "twin-skip"))
+            for t in g.transcripts:
+                for intr in t.introns:
+                    w.plant_sites(chrom, intr, strand)
+            w.genes.append(g)
+            made.append(g)
+
+            def variant(delta_bp):
+                e = list(ex)
+                if side == "left":
+                    e[j] = (ex[j][0], ex[j][1] + delta_bp)
+                else:
+                    e[j + 1] = (ex[j + 1][0] + delta_bp, ex[j + 1][1])
+                return e
+            vm = variant(d // 2)
+            far = ex[:j] if j >= 2 else ex[j + 2:]
+            for _ in range(n_reads):
+                for cls, e in (("twin-exact-A", list(ex)), ("twin-exact-B", list(exb)), ("twin-between", vm),
+                               ("twin-off-by-one-A", variant(-1)), ("twin-off-by-one-B", variant(d + 1)),
+                               ("twin-truncated", [(vm[j][0] + 40, vm[j][1]), (vm[j + 1][0], vm[j + 1][1] - 40)]),
+                               ("twin-not-reaching", far)):
+                    if len(e) >= 2 and all(a < b for a, b in e):
+                        w.make_read(chrom, e, truth={"src": gid + ".tA", "class": cls, "twin_d": d, "twin_side": side},
+                                    flag=rng.choice((0, 16)), polya=30 if (strand == "+" and e[-1] == ex[-1] and rng.random() < 0.5) else 0)
+                if skip_isoform and len(g.transcripts) == 3:
+                    w.make_read(chrom, g.transcripts[2].exons, truth={"src": gid + ".tS", "class": "twin-skip"}, flag=rng.choice((0, 16)))
+            pos = p + rng.randint(2500, 3500)
+    return made
